@@ -57,6 +57,7 @@ class ScheduleModel(object):
         self.times = dref.query_times(self.t0, self.tend + self.h)
         self.ref = dict(zip(self.times, dref.evaluate(f, signals, self.times, selfcheck=True)))
         self.nontrivial = 0
+        self.exact = False
         self.outputs = set()
         # data sets that start at t0 > 0: the unrepaired monitor is documented (open finding) to behave like the shifted-start
         # variant; it is used to tell that defect apart from every other deviation
@@ -128,7 +129,7 @@ class ScheduleModel(object):
         if tt < self.t0 or tt not in self.ref:
             return None
         r = self.ref[tt]
-        if not refsem.same(v, r):
+        if not ((v == r) if self.exact and v is not None else refsem.same(v, r)):
             if self.variant is not None and self.variant.get(tt) is not None and refsem.same(v, self.variant[tt]):
                 self.known_hits += 1      # exactly the documented missing-prefix behaviour: counted as known finding, exploration goes on
                 return None
@@ -187,6 +188,29 @@ def long_signal_sets():
     return out
 
 
+BIG = 1e9
+
+
+def big_formulas():
+    X, Y = F.X, F.Y
+    s = ('+', X, Y)
+    p = ('pred', '<=', s, ('const', 2 * BIG + 1.5))
+    q = ('pred', '>', Y, F.C0)
+    return [s, p, ('and', X, Y), ('or', X, s), ('once', (0, 1), s), ('historically', (1, 2), s), ('since', None, p, q), ('since', (0, 1), X, s),
+            ('once', None, X), ('implies', q, ('historically', (0, 1), p)), ('pred', '>=', X, Y), ('-', X, Y)]
+
+
+def big_signal_sets(tier):
+    out = []
+    for tx, ty in ((TIMES_X[0], TIMES_Y[0]), (TIMES_X[1], TIMES_Y[1]))[:1 if tier == 'quick' else 2]:
+        sets = []
+        for vx in itertools.product((BIG, BIG + 1.0, BIG + 2.0), repeat=len(tx)):
+            for vy in itertools.product((0.0, BIG), repeat=len(ty)):
+                sets.append({'x': tuple(zip(tx, vx)), 'y': tuple(zip(ty, vy))})
+        out += sets[7::(108 if tier == 'quick' else 5)]
+    return out
+
+
 def formula_set(tier):
     quick = tier == 'quick'
     I = ((0, 1), (1, 2)) if quick else F.I_QUICK
@@ -235,6 +259,7 @@ def shards(tier):
     deep = deep[::4] if tier == 'quick' else deep
     out += [{'formulas': [(F.to_json(f), False)], 'deep': True} for f in deep]
     out += [{'formulas': [(F.to_json(f), p)], 'long': True} for f, p in long_formulas()]
+    out += [{'formulas': [(F.to_json(f), False)], 'big': True} for f in big_formulas()]
     return out
 
 
@@ -260,17 +285,18 @@ def run_shard(shard, tier, res):
         vs = sorted(F.fvars(f))
         text = 'out = ' + F.pr(f)
         res.formulas += 1
-        for sig in (long_signal_sets() if shard.get('long') else deep_signal_sets(len(vs), tier) if shard.get('deep')
-                    else signal_sets(len(vs), tier)):
+        for sig in (long_signal_sets() if shard.get('long') else big_signal_sets(tier) if shard.get('big')
+                    else deep_signal_sets(len(vs), tier) if shard.get('deep') else signal_sets(len(vs), tier)):
             sig = {v: sig['x' if (v == 'y' and len(vs) == 1) else v] for v in vs}
             if shard.get('long'):
                 m = TwoCallModel(f, text, vs, sig, pastify)
                 m.cuts = LONG_CUTS_QUICK if tier == 'quick' else tuple(range(0, 72))
             else:
                 m = ScheduleModel(f, text, vs, sig, pastify)
+                m.exact = bool(shard.get('big'))
 
             def on_violation(hist, msg, m=m, sig=sig):
-                case = {'formula': fj, 'spec': text, 'vars': vs, 'pastify': pastify,
+                case = {'formula': fj, 'spec': text, 'vars': vs, 'pastify': pastify, 'exact': m.exact,
                         'signals': {v: [list(p) for p in s] for v, s in sig.items()}, 'schedule': [list(st) for st in hist]}
                 res.violation(mod, case, msg)
                 res.outcomes[msg.split(' is ')[0][:24]] += 1
@@ -296,6 +322,7 @@ def check_case(case):
     f = F.from_json(case['formula'])
     sig = {v: [tuple(p) for p in s] for v, s in case['signals'].items()}
     m = ScheduleModel(f, case['spec'], case['vars'], sig, case.get('pastify', False))   # replay follows the recorded schedule
+    m.exact = bool(case.get('exact'))
     obj = m.fresh()
     hist = tuple(tuple(s) for s in case['schedule'])
     msgs = []
